@@ -113,14 +113,63 @@ func (w *World) globalInit(g *ssa.Global) (ssa.Value, int) {
 }
 
 func (n *Normer) Eval(v ssa.Value) Mono {
-	return n.eval(v, 0)
+	return n.eval(v, nil, 0)
 }
 
-func (n *Normer) eval(v ssa.Value, d int) Mono {
-	if d > 12 {
+// nenv binds the parameters of an inlined helper to the argument values of its call; parent is the
+// environment of the calling context (helpers calling helpers).
+type nenv struct {
+	m      map[*ssa.Parameter]ssa.Value
+	parent *nenv
+}
+
+// inlineableHelper: a small module function with one result and exactly one return statement, whose
+// body the normaliser may read in place of the call (an arithmetic or comparison helper).
+func inlineableHelper(c *ssa.CallCommon) (*ssa.Function, *ssa.Return) {
+	h := c.StaticCallee()
+	if h == nil || h.Blocks == nil || h.Parent() != nil || !strings.HasPrefix(funcPkgPath(h), modPath) {
+		return nil, nil
+	}
+	if h.Signature.Results().Len() != 1 || len(h.Params) != len(c.Args) {
+		return nil, nil
+	}
+	var ret *ssa.Return
+	n := 0
+	for _, b := range h.Blocks {
+		n += len(b.Instrs)
+		for _, in := range b.Instrs {
+			if r, ok := in.(*ssa.Return); ok {
+				if ret != nil {
+					return nil, nil
+				}
+				ret = r
+			}
+		}
+	}
+	if ret == nil || n > 60 {
+		return nil, nil
+	}
+	return h, ret
+}
+
+func bindEnv(h *ssa.Function, args []ssa.Value, parent *nenv) *nenv {
+	e := &nenv{m: map[*ssa.Parameter]ssa.Value{}, parent: parent}
+	for i, p := range h.Params {
+		e.m[p] = args[i]
+	}
+	return e
+}
+
+func (n *Normer) eval(v ssa.Value, env *nenv, d int) Mono {
+	if d > 14 {
 		return Mono{Why: "too deep"}
 	}
 	v = canon(v)
+	if p, ok := v.(*ssa.Parameter); ok && env != nil {
+		if a, ok := env.m[p]; ok {
+			return n.eval(a, env.parent, d+1)
+		}
+	}
 	if n.Leaf != nil {
 		if s := n.Leaf(v); s != "" {
 			return Mono{Coef: big.NewRat(1, 1), Syms: []string{s}, OK: true}
@@ -134,19 +183,19 @@ func (n *Normer) eval(v ssa.Value, d int) Mono {
 	case *ssa.BinOp:
 		switch x.Op {
 		case token.MUL:
-			return n.eval(x.X, d+1).mul(n.eval(x.Y, d+1))
+			return n.eval(x.X, env, d+1).mul(n.eval(x.Y, env, d+1))
 		case token.QUO:
 			if bt, ok := x.Type().Underlying().(*types.Basic); ok && bt.Info()&types.IsInteger != 0 {
-				return n.eval(x.X, d+1).floorDiv(n.eval(x.Y, d+1))
+				return n.eval(x.X, env, d+1).floorDiv(n.eval(x.Y, env, d+1))
 			}
-			return n.eval(x.X, d+1).div(n.eval(x.Y, d+1))
+			return n.eval(x.X, env, d+1).div(n.eval(x.Y, env, d+1))
 		}
 	case *ssa.UnOp:
 		if x.Op == token.MUL {
 			if g, ok := x.X.(*ssa.Global); ok {
 				iv, writers := n.w.globalInit(g)
 				if iv != nil && writers == 0 {
-					return n.eval(iv, d+1)
+					return n.eval(iv, nil, d+1)
 				}
 				return Mono{Why: "global " + g.Name() + " has other writers or no initialiser"}
 			}
@@ -161,7 +210,7 @@ func (n *Normer) eval(v ssa.Value, d int) Mono {
 			switch cal.Name {
 			case "NewInt", "NewIntFromUint64", "NewUint", "LegacyNewDec", "LegacyNewDecFromInt", "NewIntFromBigInt", "LegacyNewDecFromBigInt":
 				if len(args) == 1 {
-					return n.eval(args[0], d+1)
+					return n.eval(args[0], env, d+1)
 				}
 			case "ZeroInt", "LegacyZeroDec":
 				return monoConst(big.NewRat(0, 1))
@@ -169,16 +218,20 @@ func (n *Normer) eval(v ssa.Value, d int) Mono {
 				return monoConst(big.NewRat(1, 1))
 			case "Mul", "MulRaw", "MulInt", "MulInt64":
 				if len(args) == 2 {
-					return n.eval(args[0], d+1).mul(n.eval(args[1], d+1))
+					return n.eval(args[0], env, d+1).mul(n.eval(args[1], env, d+1))
 				}
 			case "Quo", "QuoRaw", "QuoInt", "QuoInt64":
 				if len(args) == 2 {
 					if cal.Recv == "Int" || cal.Recv == "Uint" {
-						return n.eval(args[0], d+1).floorDiv(n.eval(args[1], d+1))
+						return n.eval(args[0], env, d+1).floorDiv(n.eval(args[1], env, d+1))
 					}
-					return n.eval(args[0], d+1).div(n.eval(args[1], d+1))
+					return n.eval(args[0], env, d+1).div(n.eval(args[1], env, d+1))
 				}
 			}
+		}
+		// an arithmetic helper of the module: read its single return expression with the parameters bound
+		if h, ret := inlineableHelper(x.Common()); h != nil {
+			return n.eval(ret.Results[0], bindEnv(h, args, env), d+1)
 		}
 	}
 	return Mono{Why: "unrecognised term " + valDesc(v)}
@@ -195,20 +248,36 @@ var cmpMethods = map[string]token.Token{"GT": token.GTR, "GTE": token.GEQ, "LT":
 
 // RelOf reads a boolean value as a comparison (method call GT/GTE/LT/LTE or native operator).
 func (n *Normer) RelOf(cond ssa.Value) Rel {
+	return n.relOf(cond, nil, 0)
+}
+
+func (n *Normer) relOf(cond ssa.Value, env *nenv, d int) Rel {
+	if d > 6 {
+		return Rel{}
+	}
 	cond = canon(cond)
+	if p, ok := cond.(*ssa.Parameter); ok && env != nil {
+		if a, ok := env.m[p]; ok {
+			return n.relOf(a, env.parent, d+1)
+		}
+	}
 	switch x := cond.(type) {
 	case *ssa.Call:
 		cal, ok := CalleeOf(x.Common())
 		if ok && cal.Pkg == "cosmossdk.io/math" {
 			if op, ok := cmpMethods[cal.Name]; ok && len(x.Common().Args) == 2 {
-				l, r := n.Eval(x.Common().Args[0]), n.Eval(x.Common().Args[1])
+				l, r := n.eval(x.Common().Args[0], env, 0), n.eval(x.Common().Args[1], env, 0)
 				return Rel{L: l, R: r, Op: op, OK: l.OK && r.OK}
 			}
+		}
+		// a comparison extracted into a helper of the module
+		if h, ret := inlineableHelper(x.Common()); h != nil {
+			return n.relOf(ret.Results[0], bindEnv(h, x.Common().Args, env), d+1)
 		}
 	case *ssa.BinOp:
 		switch x.Op {
 		case token.GTR, token.GEQ, token.LSS, token.LEQ:
-			l, r := n.Eval(x.X), n.Eval(x.Y)
+			l, r := n.eval(x.X, env, 0), n.eval(x.Y, env, 0)
 			return Rel{L: l, R: r, Op: x.Op, OK: l.OK && r.OK}
 		}
 	}
